@@ -320,17 +320,19 @@ def gen_program(rng, conflict=False):
         # the SAME local name, with different kinds, under the same right-hand sides in several phases (locals are
         # scoped per phase): 'k <- f(t, v); inc <- dt*k' here, 'k <- 1.5; inc <- dt*k' there
         kinds = rng.sample(["ut", "real", "cplx", "arr"], min(nph, rng.choice([2, 2, 3])))
-        shared = rng.choice([["*", ["var", "<dt>"], ["var", "k"]], ["+", ["var", "k"], ["var", "k"]],
-                             ["*", ["num", 2], ["var", "k"]]])
+        # (sometimes a local whose name merely BEGINS like the two tag-only names <t> and <dt>)
+        kn = rng.choice(["k", "k", "<dt>_ctl", "<t>0", "<dt>x"])
+        shared = rng.choice([["*", ["var", "<dt>"], ["var", kn]], ["+", ["var", kn], ["var", kn]],
+                             ["*", ["num", 2], ["var", kn]]])
         for pn, kd in zip(names, kinds):
             if kd == "ut":
-                phases[pn].append(["call", ["k"], "<func>f", [["var", "<t>"], ["var", "<state>v"]], {}])
+                phases[pn].append(["call", [kn], "<func>f", [["var", "<t>"], ["var", "<state>v"]], {}])
             elif kd == "real":
-                phases[pn].append(["assign", "k", ["num", 1.5]])
+                phases[pn].append(["assign", kn, ["num", 1.5]])
             elif kd == "cplx":
-                phases[pn].append(["assign", "k", ["cnum", 0.0, 1.0]])
+                phases[pn].append(["assign", kn, ["cnum", 0.0, 1.0]])
             else:
-                phases[pn].append(["call", ["k"], "<builtin>array", [["num", 2]], {}])
+                phases[pn].append(["call", [kn], "<builtin>array", [["num", 2]], {}])
             phases[pn].append(["assign", "inc", shared])
             if rng.random() < 0.5 and kd != "arr":
                 phases[pn].append(["assign", "<p>h_" + pn, ["var", "inc"]])
@@ -507,8 +509,12 @@ def check_program(prog, rec, rng, nperm, conflict, mon=None):
         a, b = base, r[1]
         if a[0] != b[0] or (a[0] == "ok" and a[1] != b[1]):
             swallowed = a[2] + b[2]
-            if swallowed:
+            if swallowed and conflict:
+                # (the open finding is about programs that DO give one variable incompatible kinds; a unification
+                # failure inside a program that does not is a symptom of its own)
                 mech = "order-dependent-table-kind-conflict-first-wins"
+            elif swallowed:
+                mech = "order-dependent-table-unification-failure-in-a-program-without-kind-conflict"
             elif a[0] == b[0] and a[3] + b[3]:
                 mech = "order-dependent-table-variable-holds-scalar-and-user-type"
             elif a[0] != b[0]:
@@ -555,6 +561,7 @@ def run_shard(shard, rec):
     mon.attach()
     progs = []
     bases = []
+    classes = []
     try:
         for i in range(shard["count"]):
             conflict = (i % 5 == 4)
@@ -569,6 +576,7 @@ def run_shard(shard, rec):
                 rec.count("programs_with_swallowed_unify_failure")
             progs.append(prog)
             bases.append(base)
+            classes.append(conflict)
     finally:
         mon.detach()
     # hash seeds, in fresh interpreters
@@ -577,10 +585,12 @@ def run_shard(shard, rec):
         if lst is None:
             rec.notes.append(f"hashseed subprocess {s} failed")
             continue
-        for prog, base, got in zip(progs, bases, lst):
+        for prog, base, got, conflict in zip(progs, bases, lst, classes):
             rec.count("hashseed_tables_compared")
             if got[0] != base[0] or (got[0] == "ok" and got[1] != base[1]):
-                mech = ("order-dependent-table-kind-conflict-first-wins" if (got[2] or base[2]) else
+                mech = ("order-dependent-table-kind-conflict-first-wins" if ((got[2] or base[2]) and conflict) else
+                        "order-dependent-table-unification-failure-in-a-program-without-kind-conflict"
+                        if (got[2] or base[2]) else
                         "order-dependent-table-variable-holds-scalar-and-user-type"
                         if (got[0] == base[0] and got[3] + base[3]) else "hashseed-dependent-table")
                 rec.violation(mech,
